@@ -216,8 +216,9 @@ func check(raw json.RawMessage) error {
 		if c.Sym != "QR" && c.Sym != "DM" && !c.Mirror && (o/90)%2 != c.Rot%2 {
 			return fmt.Errorf("ORIENTATION %d reported for a 1-D symbol rotated by %d degrees [%s]", o, c.Rot*90, desc)
 		}
-	} else if c.Sym != "QR" && c.Sym != "DM" && !c.Mirror && c.Rot != 0 {
-		return fmt.Errorf("1-D symbol rotated by %d degrees read without ORIENTATION metadata [%s]", c.Rot*90, desc)
+	} else if c.Sym != "QR" && c.Sym != "DM" && !c.Mirror && c.Rot == 2 {
+		// (for a sideways read the property promises the content only)
+		return fmt.Errorf("1-D symbol turned upside down read without ORIENTATION metadata [%s]", desc)
 	}
 	if c.Positive == "rot180" {
 		if o, _ := res.GetResultMetadata()[gozxing.ResultMetadataType_ORIENTATION].(int); o != 180 {
